@@ -115,6 +115,8 @@ theorem svcT_armTtl (s : Stack) (ttl : Nat) (cb : Cb) (h : isSvcExpiry cb = fals
 @[simp] theorem svcT_with_subLog (s : Stack) (x : List (Addr × Nat × List Eventgroup)) : svcT { s with subLog := x } = svcT s := rfl
 @[simp] theorem svcT_with_findLog (s : Stack) (x : List (Nat × Nat)) : svcT { s with findLog := x } = svcT s := rfl
 @[simp] theorem svcT_with_findMarks (s : Stack) (x : List (Nat × Nat)) : svcT { s with findMarks := x } = svcT s := rfl
+@[simp] theorem svcT_with_ansLog (s : Stack) (x : List (Nat × Addr × Nat × Nat)) : svcT { s with ansLog := x } = svcT s := rfl
+@[simp] theorem svcT_logAnswer (s : Stack) (i : Nat) (a : Addr) (d : Nat) : svcT (s.logAnswer i a d) = svcT s := rfl
 @[simp] theorem svcT_markFind (s : Stack) (n : Nat) : svcT (s.markFind n) = svcT s := rfl
 @[simp] theorem svcT_with_offLog (s : Stack) (x : List (Nat × OEv × Nat)) : svcT { s with offLog := x } = svcT s := rfl
 @[simp] theorem svcT_logOffer (s : Stack) (i : Nat) (e : OEv) : svcT (s.logOffer i e) = svcT s := rfl
